@@ -497,7 +497,7 @@ def h_bfgs(s, variant, minimize, iters, stop=0):
     s.observe("objective", res.objective)
 
 
-def h_bayes(s, minimize, acquisition, extra):
+def h_bayes(s, minimize, acquisition, extra, stop=0):
     """The acquisition maximiser (inner nelder_mead) is replaced by a stub returning an arbitrary in-bounds candidate from a concrete stream
     (over-approximation of the maximiser); erf/exp of symbolic surrogate values are uninterpreted. Objective values symbolic."""
     mod = importlib.import_module("solvor.bayesian")
@@ -523,7 +523,8 @@ def h_bayes(s, minimize, acquisition, extra):
         obj = Obj(s, flip, key=_fkey)
         s.patch(mod, nelder_mead=nm_stub)
         s.stub(mod, erf=unint("erf"), exp=unint("exp"))
-        res = mod.bayesian_opt(obj, bounds, minimize=mn, max_iter=2 + extra, n_initial=2, acquisition=acquisition, acq_restarts=1, seed=4)
+        res = mod.bayesian_opt(obj, bounds, minimize=mn, max_iter=2 + extra, n_initial=2, acquisition=acquisition, acq_restarts=1, seed=4,
+                               **_stop_kw(stop))
         return res, obj
 
     res, obj = run(minimize, False)
@@ -592,6 +593,7 @@ def items(tier, rng):
         add("powell_stop", "h_powell", {"dim": 2, "minimize": mn, "bounded": "box", "iters": 2, "stop": 1}, mp=100 if q else 1500)
         add("bfgs_stop", "h_bfgs", {"variant": "bfgs", "minimize": mn, "iters": 3, "stop": 2}, mp=100 if q else 1500)
         add("lbfgs_stop", "h_bfgs", {"variant": "lbfgs", "minimize": mn, "iters": 3, "stop": 2}, mp=100 if q else 1500)
+        add("bayes_stop", "h_bayes", {"minimize": mn, "acquisition": "ei", "extra": 3, "stop": 1})
         add("tabu_stop", "h_tabu", {"max_iter": 4, "minimize": mn, "width": 2, "revisit": False, "stop": 2}, mp=200 if q else 2000)
         for dim in (1, 2):
             for bounded in (False, "box", "pin_last", "pin_first", "pin_all"):
